@@ -1587,11 +1587,23 @@ func (p *Posix) CompleteMultipartUpload(ctx context.Context, input *s3.CompleteM
 
 	d, err := os.Stat(objname)
 
-	// if the versioninng is enabled first create the file object version
-	if p.versioningEnabled() && vEnabled && err == nil && !d.IsDir() {
-		_, err := p.createObjVersion(bucket, object, d.Size(), acct)
-		if err != nil {
-			return nil, fmt.Errorf("create object version: %w", err)
+	// if the versioninng is enabled first create the file object version;
+	// with suspended versioning the object that is replaced is kept when it
+	// has a version id (the new object becomes the null version)
+	if p.versioningEnabled() && vStatus != "" && err == nil && !d.IsDir() {
+		keep := vEnabled
+		if !keep {
+			vIdBytes, err := p.meta.RetrieveAttribute(nil, bucket, object, versionIdKey)
+			if err != nil && !errors.Is(err, meta.ErrNoSuchKey) {
+				return nil, fmt.Errorf("get object versionId: %w", err)
+			}
+			keep = len(vIdBytes) != 0
+		}
+		if keep {
+			_, err := p.createObjVersion(bucket, object, d.Size(), acct)
+			if err != nil {
+				return nil, fmt.Errorf("create object version: %w", err)
+			}
 		}
 	}
 	p.dropStaleSidecarAttrs(bucket, object)
@@ -1609,6 +1621,14 @@ func (p *Posix) CompleteMultipartUpload(ctx context.Context, input *s3.CompleteM
 		if err != nil {
 			return nil, fmt.Errorf("set versionId attr: %w", err)
 		}
+	}
+	if p.versioningEnabled() && p.isBucketVersioningSuspended(vStatus) {
+		// the new object replaces the null version
+		err = p.deleteNullVersionIdObject(bucket, object)
+		if err != nil {
+			return nil, err
+		}
+		versionID = nullVersionId
 	}
 
 	for k, v := range userMetaData {
